@@ -63,6 +63,7 @@ def IdWF (id : Bytes) : Prop := id.length = 36 ∧ ∀ b ∈ id, b ≠ semi ∧ 
 
 structure CollWF (coll : Spec.Coll) : Prop where
   idsDistinct : (coll.docs.map (·.1)).Nodup
+  docsSorted : coll.docs.Pairwise (fun a b => lexLt a.1 b.1 = true)
   idsWF : ∀ e ∈ coll.docs, IdWF e.1 ∧ e.2.objectId = e.1
   fieldsClean : ∀ f ∈ coll.indexes, Clean f
   fieldsDistinct : coll.indexes.Nodup
